@@ -5,7 +5,9 @@ import copy
 import numpy as np
 from hypothesis import strategies as st
 
-from vlib.harness import SubCheck, must, must_raise, require
+from hypothesis.stateful import initialize, rule
+
+from vlib.harness import SubCheck, make_trace_machine, must, must_raise, require
 
 PROPERTY_ID = "C10"
 RULE = (
@@ -139,7 +141,103 @@ def oracle(spec):
     return {"classes": cl, "nontrivial": distinct >= 2 and overlap}
 
 
+# ---------------------------------------------------------------- the same object queried across changes of its shots
+
+
+def machine(on_end, expired):
+    from orquestra.quantum.measurements import Measurements
+    from orquestra.quantum.operators import PauliSum, PauliTerm
+
+    Base = make_trace_machine(on_end, expired)
+    N = 3
+    shots_st = st.lists(st.tuples(*[st.integers(0, 1)] * N).map(list), min_size=1, max_size=6)
+
+    class MeasMachine(Base):
+        def __init__(self):
+            super().__init__()
+            self.m = None
+            self.model = []
+            self.queried = False
+
+        def _query(self, which):
+            cnt = must(self.m.get_counts, "get_counts")
+            want = dict(collections.Counter("".join(map(str, b)) for b in self.model))
+            require(cnt == want, lambda: f"counts {cnt} are not the tally {want} of the shots the object holds now")
+            if which >= 1:
+                d = must(self.m.get_distribution, "get_distribution").distribution_dict
+                for k, v in want.items():
+                    key = tuple(int(x) for x in k)
+                    require(abs(d.get(key, d.get(k, -1)) - v / len(self.model)) <= 1e-12, lambda: f"distribution {d} is not counts / shots for the current shots")
+            if which >= 2:
+                op = PauliSum([PauliTerm({0: "Z"}, 1.0), PauliTerm({1: "Z", 2: "Z"}, -0.5)])
+                ev = must(lambda: self.m.get_expectation_values(op), "get_expectation_values")
+                w0 = sum(1 - 2 * b[0] for b in self.model) / len(self.model)
+                w1 = -0.5 * sum((1 - 2 * b[1]) * (1 - 2 * b[2]) for b in self.model) / len(self.model)
+                require(abs(ev.values[0] - w0) <= 1e-9 and abs(ev.values[1] - w1) <= 1e-9, lambda: f"expectation values {list(ev.values)} are not the sample means {[w0, w1]} of the current shots")
+            self.queried = True
+
+        @initialize(shots=shots_st)
+        def init(self, shots):
+            def go():
+                self.model = [tuple(b) for b in shots]
+                self.m = Measurements(list(self.model))
+            self.step("init", {"shots": shots}, go)
+
+        @rule(which=st.integers(0, 2))
+        def query(self, which):
+            self.step("query", {"which": which}, lambda: self._query(which))
+
+        @rule(shots=shots_st)
+        def replace(self, shots):
+            def go():
+                self.model = [tuple(b) for b in shots]
+                self.m.bitstrings = list(self.model)
+                if self.queried:
+                    self.info["nontrivial"] = True
+                    self.info["classes"].add("replaced_after_query")
+                self._query(0)
+            self.step("replace", {"shots": shots}, go)
+
+        @rule(i=st.integers(0, 10), b=st.tuples(*[st.integers(0, 1)] * N).map(list))
+        def set_item(self, i, b):
+            def go():
+                k = i % len(self.model)
+                self.model[k] = tuple(b)
+                self.m.bitstrings[k] = tuple(b)
+                if self.queried:
+                    self.info["nontrivial"] = True
+                    self.info["classes"].add("edited_after_query")
+                self._query(1)
+            self.step("set_item", {"i": i, "b": b}, go)
+
+        @rule(key=st.tuples(*[st.integers(0, 1)] * N), n=st.integers(1, 4))
+        def add_counts(self, key, n):
+            def go():
+                must(lambda: self.m.add_counts({"".join(map(str, key)): n}), "add_counts")
+                self.model += [tuple(key)] * n
+                self.info["classes"].add("add_counts")
+                self._query(2)
+            self.step("add_counts", {"key": list(key), "n": n}, go)
+
+        @rule(b=st.tuples(*[st.integers(0, 1)] * N).map(list))
+        def extend(self, b):
+            def go():
+                self.m.bitstrings += [tuple(b)]
+                self.model.append(tuple(b))
+                self._query(0)
+            self.step("extend", {"b": b}, go)
+
+        def inv(self):
+            if self.m is not None:
+                require([tuple(x) for x in self.m.bitstrings] == self.model, "the object's shots differ from the model")
+
+    return MeasMachine
+
+
 SUBCHECKS = [
     SubCheck("sample_statistics", oracle, strategy=cases, examples=(1500, 6000), shards=(8, 16), rule=RULE),
 ]
+SUBCHECKS.append(SubCheck("measurement_history", None, machine=machine, examples=(300, 2000), shards=(2, 8), steps=(12, 25),
+                          rule="one Measurements object queried (counts / distribution / expectation values) between replacements, edits and extensions of "
+                               "its shots: every report equals the statistic of the shots it holds at that moment; non-trivial = shots replaced or edited after a query"))
 SUBCHECKS[0].expected_classes = ["constant_term", "overlapping_supports", "single_shot", "repeated_support"]
